@@ -19,13 +19,14 @@ def _run(r):
     kw = {}
     if p["fixed"]:
         a, b = inp["row_labels"]
-        kw["row_label_dictionary"] = {a: 0, b: 1}
+        i0, i1 = inp.get("row_indices", [0, 1])
+        kw["row_label_dictionary"] = {a: int(i0), b: int(i1)}
     est = EdgeListVectorizer(joint_space=p["joint"], **kw)
     bad, out = [], {}
     if est.fit(E) is not est:
         bad.append("fit return")
     M = est._train_matrix
-    shape = (len(est.row_label_dictionary_), len(est.column_label_dictionary_))
+    shape = ((max(int(i0), int(i1)) + 1) if p["fixed"] else len(est.row_label_dictionary_), len(est.column_label_dictionary_))
     if M.shape != shape:
         bad.append("fit shape %s vs %s" % (M.shape, shape))
     elif not np.allclose(M.toarray(), _cells(E, est, shape)):
